@@ -814,6 +814,18 @@ def add_auto_helpers(text, meta, repo, auto):
     added = []
     chunks = []
     for owner, name in auto:
+        if owner == 'const':
+            # a module-level constant that the changed code introduced: extracted verbatim (logged)
+            for rel in files:
+                src, kind = load(repo, rel)
+                mc = re.search(r'^(?:pub(?:\([^)]*\))?\s+)?const\s+%s\s*:\s*[^=;]+=\s*[^;]+;' % re.escape(name), src, re.M)
+                if mc and kind[mc.start()] == 'c':
+                    ctext = re.sub(r'^pub(\([^)]*\))?\s+', '', mc.group(0))
+                    chunks.append(ctext + '\n')
+                    added.append('const %s (%s)' % (name, rel))
+                    meta['rewrites'].append({'where': 'const ' + name, 'pattern': 'new constant in /repo', 'replacement': ctext, 'count': 1})
+                    break
+            continue
         for rel in files:
             try:
                 src, kind, (fname, s0, b0, e0) = locate_fn(repo, rel, owner or '-', name, '*' if owner else None)
